@@ -19,6 +19,11 @@ use std::ops::Bound;
 pub trait TrSet: Trait + 'static {
     const NAME: &'static str;
     const CLONEABLE: bool;
+    /// address of the element clone function the vector reports (0: not Cloneable)
+    fn clone_fn_addr<M: MemB>(v: &AnyVec<Self, M>) -> usize {
+        let _ = v;
+        0
+    }
     fn clone_vec<M: MemB>(v: &AnyVec<Self, M>) -> Option<AnyVec<Self, M>> {
         let _ = v;
         None
@@ -67,6 +72,9 @@ macro_rules! cloneable_set {
         impl TrSet for $t {
             const NAME: &'static str = $name;
             const CLONEABLE: bool = true;
+            fn clone_fn_addr<M: MemB>(v: &AnyVec<Self, M>) -> usize {
+                lib(|| v.element_clone()) as usize
+            }
             fn clone_vec<M: MemB>(v: &AnyVec<Self, M>) -> Option<AnyVec<Self, M>> {
                 Some(lib(|| v.clone()))
             }
